@@ -68,6 +68,8 @@ func ConfTag(c *sdl.Conf) string {
 		key, val = "value", "#{${"+c.Keys[0]+"} > 3 ? ${"+c.Keys[1]+"} : ${"+c.Keys[2]+"}}"
 	case "concat":
 		key, val = "value", "#{'${"+c.Keys[0]+"}' + '${"+c.Keys[1]+"}'}"
+	case "concatPad":
+		key, val = "value", "#{'${"+c.Keys[0]+"}' + ':  '}"
 	case "affine":
 		key, val = "value", "#{${"+c.Keys[0]+"}*${"+c.Keys[1]+"}+${"+c.Keys[2]+"}}"
 	case "and":
@@ -283,6 +285,9 @@ func emitType(b *strings.Builder, p *sdl.Program, t *sdl.Type) {
 		// a type declared inside a function: package path and name are those of every other
 		// "Local" type of the batch
 		base := "simrt.LocalBase"
+		if t.Primary {
+			base = "simrt.LocalPrimary"
+		}
 		switch t.Role {
 		case "closer":
 			base = "simrt.LocalCloser"
